@@ -9,19 +9,24 @@ From V Require Import Gen.Params C12_Elections.Model C12_Elections.Proofs C12_El
 Import ListNotations.
 Local Open Scope Z_scope.
 
-(* side conditions on the constants the translator took from the Go source *)
+(* side conditions on what the translator took from the Go source (constants and the control-flow
+   choices of releaseLeadership / cleanup / maintainLeadership); the headline theorems below are
+   discharged through them, so a regression of the source flips a flag and re-opens them *)
 Lemma renewals_at_least_4 : 4 <= c_ren go_cfg.
 Proof. vm_compute. discriminate. Qed.
 Lemma retry_period_positive : 1 <= c_retry go_cfg.
 Proof. vm_compute. discriminate. Qed.
+Lemma release_cancels_before_delete : c_cfr go_cfg = true.     (* fix 2d04181e2 (F17) *)
+Proof. reflexivity. Qed.
+Lemma cleanup_cancels_before_delete : c_cfc go_cfg = true.     (* fix 2d04181e2 (F17) *)
+Proof. reflexivity. Qed.
+Lemma goroutine_cancels_on_return : c_coe go_cfg = true.       (* fix bbb13e2ab (LEAK) *)
+Proof. reflexivity. Qed.
 
-(* the same constants with the pinned code's control flow (CompareAndDelete before cancel(), no
-   cancel() when the renewal goroutine returns) and with the two proposed repairs (F17: cancel()
-   first; LEAK: defer li.cancel() in maintainLeadership); go_cfg is whatever the source says now *)
-Definition pinned_cfg : cfg := mkCfg elect_renewals elect_retry_ns false false false.
-Definition delete_first_cfg : cfg := pinned_cfg.
-Definition cancel_first_cfg : cfg := mkCfg elect_renewals elect_retry_ns true true elect_cancel_on_exit.
-Definition cancel_on_exit_cfg : cfg := mkCfg elect_renewals elect_retry_ns elect_release_cancel_first elect_cleanup_cancel_first true.
+(* the variants of the model the refutation witnesses are about: the control flow before the
+   repairs (CompareAndDelete before cancel(); no cancel() when the renewal goroutine returns) *)
+Definition delete_first_cfg : cfg := mkCfg elect_renewals elect_retry_ns false false (c_coe go_cfg).
+Definition no_defer_cfg : cfg := mkCfg elect_renewals elect_retry_ns (c_cfr go_cfg) (c_cfc go_cfg) false.
 
 (* hypotheses on a history *)
 Definition well_formed (acts : list action) := Forall wf_action acts.                (* durations >= 1 s *)
@@ -35,25 +40,31 @@ Ltac hyps := unfold well_formed, acquires_once, distinct_values, no_external_del
 
 
 (* ------------------------------------------------------------------------------------------ *)
-(* STEP-DOWN BOUND.  Full statement:
-     forall np acts s i l, well_formed acts -> run go_cfg (init np) acts = Some s ->
-       nth_error (lis s) i = Some l -> llive l = true ->
-       now s <= llast l + 2 * interval go_cfg (ldur l)
-   i.e. in every reachable state (every interleaving, every pattern of storage outcomes, external
-   deletions, every clock advance allowed by urgency) a live leadership context is at most two
-   renewal intervals older than its last successful InsertIfNotExist/CompareAndSwap.
-   The faithful model of the pinned control flow refutes it: when a participant acquires a key for which it still holds a
-   live context (possible after an external deletion of the record), the first renewal goroutine
-   ends in releaseLeadership without finding itself in the map and returns without cancel():
-   its context stays live for ever (finding LEAK). *)
+(* STEP-DOWN BOUND: in every reachable state (every interleaving, every pattern of storage
+   outcomes, external deletions, every clock advance allowed by urgency, acquisitions repeated at
+   will) a live leadership context is at most two renewal intervals - at most half of the
+   leadership duration, because renewalsPerLeadershipDur >= 4 - older than its last successful
+   InsertIfNotExist/CompareAndSwap. *)
+Theorem step_down_bound :
+  forall np acts s i l, well_formed acts ->
+  run go_cfg (init np) acts = Some s -> nth_error (lis s) i = Some l -> llive l = true ->
+  now s <= llast l + 2 * interval go_cfg (ldur l) /\ 2 * (2 * interval go_cfg (ldur l)) <= ldur l * sec.
+Proof.
+  exact (fun np acts s i l =>
+    step_down_bound_coe_proved go_cfg renewals_at_least_4 np acts s i l goroutine_cancels_on_return).
+Qed.
+
+(* Without the cancel() on return (the code before bbb13e2ab) the statement is false: when a
+   participant acquires a key for which it still holds a live context (possible after an external
+   deletion of the record), the first renewal goroutine ends in releaseLeadership without finding
+   itself in the map and returns without cancel(): its context stays live for ever (LEAK). *)
 Definition leak_run : list action :=
   [AcqCall 0 1 10 4; InsEff 0 ONormal; InsRet 0; ExtDelete 1;
    AcqCall 0 1 10 4; InsEff 0 ONormal; InsRet 0;
    RelCall 0 1; ApiCadEff 0 ONormal; ApiCadRet 0; Exit 1; WaitDone 0;
    Advance 1000000000; Tick 0; CasEff 0 ONormal; CasRet 0; Advance 10000000000].
-
-Theorem step_down_bound_refuted :
-  exists np acts s i l, well_formed acts /\ run pinned_cfg (init np) acts = Some s /\
+Theorem step_down_bound_refuted_no_defer :
+  exists np acts s i l, well_formed acts /\ run no_defer_cfg (init np) acts = Some s /\
     nth_error (lis s) i = Some l /\ llive l = true /\ lph l = MGone /\
     llast l + ldur l * sec < now s.
 Proof.
@@ -61,37 +72,19 @@ Proof.
   split; [hyps|]. split; [vm_compute; reflexivity|].
   split; [reflexivity|]. vm_compute. auto.
 Qed.
-
-(* ... and it holds for every history in which no participant acquires the same key twice
-   (the hypothesis excludes exactly the second acquisition of the witness); the two intervals
-   are at most half of the leadership duration because renewalsPerLeadershipDur >= 4. *)
-Theorem step_down_bound_partial :
-  forall np acts s i l, well_formed acts -> acquires_once go_cfg np acts ->
-  run go_cfg (init np) acts = Some s -> nth_error (lis s) i = Some l -> llive l = true ->
-  now s <= llast l + 2 * interval go_cfg (ldur l) /\ 2 * (2 * interval go_cfg (ldur l)) <= ldur l * sec.
-Proof. exact (step_down_bound_proved go_cfg renewals_at_least_4). Qed.
-
-(* with the repair (cancel() whenever the renewal goroutine returns) the full statement holds:
-   for the explicit configuration, and for the source's configuration once it has the defer *)
-Theorem step_down_bound_cancel_on_exit :
-  forall np acts s i l, well_formed acts ->
-  run cancel_on_exit_cfg (init np) acts = Some s -> nth_error (lis s) i = Some l -> llive l = true ->
-  now s <= llast l + 2 * interval cancel_on_exit_cfg (ldur l) /\
-  2 * (2 * interval cancel_on_exit_cfg (ldur l)) <= ldur l * sec.
-Proof.
-  assert (4 <= c_ren cancel_on_exit_cfg) as R by (vm_compute; discriminate).
-  exact (fun np acts s i l => step_down_bound_coe_proved cancel_on_exit_cfg R np acts s i l eq_refl).
-Qed.
+(* ... the same run on the code as it is leaves both contexts cancelled *)
 Example leak_run_repaired :
-  exists s, run cancel_on_exit_cfg (init 1) leak_run = Some s /\ map llive (lis s) = [false; false] /\ now s = 11000000000.
+  exists s, run go_cfg (init 1) leak_run = Some s /\ map llive (lis s) = [false; false] /\ now s = 11000000000.
 Proof. eexists. split; [vm_compute; reflexivity|]. vm_compute. auto. Qed.
-Theorem step_down_bound :
-  c_coe go_cfg = true ->
-  forall np acts s i l, well_formed acts ->
-  run go_cfg (init np) acts = Some s -> nth_error (lis s) i = Some l -> llive l = true ->
-  now s <= llast l + 2 * interval go_cfg (ldur l) /\ 2 * (2 * interval go_cfg (ldur l)) <= ldur l * sec.
+(* ... and even that variant keeps the bound for every history in which no participant
+   re-acquires a key it has already led (failed attempts may be repeated) *)
+Theorem step_down_bound_no_defer_partial :
+  forall np acts s i l, well_formed acts -> acquires_once no_defer_cfg np acts ->
+  run no_defer_cfg (init np) acts = Some s -> nth_error (lis s) i = Some l -> llive l = true ->
+  now s <= llast l + 2 * interval no_defer_cfg (ldur l) /\ 2 * (2 * interval no_defer_cfg (ldur l)) <= ldur l * sec.
 Proof.
-  intros Ce np acts s i l. exact (step_down_bound_coe_proved go_cfg renewals_at_least_4 np acts s i l Ce).
+  assert (4 <= c_ren no_defer_cfg) as R by (vm_compute; discriminate).
+  exact (step_down_bound_proved no_defer_cfg R).
 Qed.
 
 (* non-vacuity: a leader that renews, hits an error, retries successfully, while a second
@@ -112,12 +105,22 @@ Proof.
 Qed.
 
 (* ------------------------------------------------------------------------------------------ *)
-(* MUTUAL EXCLUSION.  Full statement (no external deletion):
-     forall np acts s i j l l', well_formed acts -> acquires_once go_cfg np acts -> distinct_values acts ->
-       no_external_delete acts -> run go_cfg (init np) acts = Some s ->
-       nth_error (lis s) i = Some l -> nth_error (lis s) j = Some l' -> lkey l = lkey l' ->
-       llive l = true -> llive l' = true -> i = j
-   The order the code uses (CompareAndDelete, then cancel()) refutes it (finding F17): *)
+(* MUTUAL EXCLUSION: for every history without deletion of records by a third party, in which
+   participants use different values and no participant re-acquires a key it has already led, at
+   most one leadership per key is live in every reachable state. *)
+Theorem mutex :
+  forall np acts s i j l l', Forall mdom acts -> acquires_once go_cfg np acts -> distinct_values acts ->
+  run go_cfg (init np) acts = Some s ->
+  nth_error (lis s) i = Some l -> nth_error (lis s) j = Some l' -> lkey l = lkey l' ->
+  llive l = true -> llive l' = true -> i = j.
+Proof.
+  exact (fun np acts s i j l l' =>
+    mutex_cancel_first_proved go_cfg renewals_at_least_4 np acts s i j l l'
+      release_cancels_before_delete cleanup_cancels_before_delete).
+Qed.
+
+(* With CompareAndDelete before cancel() (the code before 2d04181e2) the statement is false (F17):
+   a second participant acquires while the releaser's context is still live *)
 Definition f17_run : list action :=
   [AcqCall 0 1 10 20; InsEff 0 ONormal; InsRet 0;
    RelCall 0 1; ApiCadEff 0 ONormal;
@@ -135,37 +138,20 @@ Proof.
   split; [hyps|].
   split; [vm_compute; reflexivity|]. vm_compute. intuition congruence.
 Qed.
-
-(* for the code as it is: at most one live leadership per key among those for which no
-   release/cleanup CompareAndDelete has been issued yet (lcad = false); the extra hypothesis
-   excludes exactly the window of the witness between that call and cancel() *)
-Theorem mutex_partial :
-  forall np acts s i j l l', Forall mdom acts -> acquires_once go_cfg np acts -> distinct_values acts ->
-  run go_cfg (init np) acts = Some s ->
+(* ... the same run on the code as it is: the releaser's context is dead before the record goes *)
+Example f17_run_repaired :
+  exists s, run go_cfg (init 2) f17_run = Some s /\ map llive (lis s) = [false; true].
+Proof. eexists. split; vm_compute; reflexivity. Qed.
+(* ... and that variant still has at most one live leadership per key among those for which no
+   release/cleanup CompareAndDelete has been issued yet (lcad = false) *)
+Theorem mutex_delete_first_partial :
+  forall np acts s i j l l', Forall mdom acts -> acquires_once delete_first_cfg np acts -> distinct_values acts ->
+  run delete_first_cfg (init np) acts = Some s ->
   nth_error (lis s) i = Some l -> nth_error (lis s) j = Some l' -> lkey l = lkey l' ->
   llive l = true -> llive l' = true -> lcad l = false -> lcad l' = false -> i = j.
-Proof. exact (mutex_window_proved go_cfg renewals_at_least_4). Qed.
-
-(* with cancel() first (the proposed repair) the full statement holds; stated for the explicit
-   configuration and for the source's configuration once its flags say cancel-first *)
-Theorem mutex_cancel_first :
-  forall np acts s i j l l', Forall mdom acts -> acquires_once cancel_first_cfg np acts -> distinct_values acts ->
-  run cancel_first_cfg (init np) acts = Some s ->
-  nth_error (lis s) i = Some l -> nth_error (lis s) j = Some l' -> lkey l = lkey l' ->
-  llive l = true -> llive l' = true -> i = j.
 Proof.
-  assert (4 <= c_ren cancel_first_cfg) as R by (vm_compute; discriminate).
-  exact (fun np acts s i j l l' => mutex_cancel_first_proved cancel_first_cfg R np acts s i j l l' eq_refl eq_refl).
-Qed.
-Theorem mutex :
-  c_cfr go_cfg = true -> c_cfc go_cfg = true ->
-  forall np acts s i j l l', Forall mdom acts -> acquires_once go_cfg np acts -> distinct_values acts ->
-  run go_cfg (init np) acts = Some s ->
-  nth_error (lis s) i = Some l -> nth_error (lis s) j = Some l' -> lkey l = lkey l' ->
-  llive l = true -> llive l' = true -> i = j.
-Proof.
-  intros Cr Cc np acts s i j l l'.
-  exact (mutex_cancel_first_proved go_cfg renewals_at_least_4 np acts s i j l l' Cr Cc).
+  assert (4 <= c_ren delete_first_cfg) as R by (vm_compute; discriminate).
+  exact (mutex_window_proved delete_first_cfg R).
 Qed.
 
 (* scope note, not a finding: no lease scheme survives deletion of the record by a third party *)
@@ -173,12 +159,12 @@ Definition extdel_run : list action :=
   [AcqCall 0 1 10 20; InsEff 0 ONormal; InsRet 0; ExtDelete 1;
    AcqCall 1 1 11 20; InsEff 1 ONormal; InsRet 1].
 Theorem mutex_external_delete_refuted :
-  exists s l l', run cancel_first_cfg (init 2) extdel_run = Some s /\
+  exists s l l', run go_cfg (init 2) extdel_run = Some s /\
     nth_error (lis s) 0 = Some l /\ nth_error (lis s) 1 = Some l' /\ lkey l = lkey l' /\
     llive l = true /\ llive l' = true /\ lcad l = false /\ lcad l' = false.
 Proof. eexists. eexists. eexists. split; [vm_compute; reflexivity|]. vm_compute. auto 8. Qed.
 
-(* non-vacuity of mutex_partial / mutex_cancel_first: the second participant of sample_run was
+(* non-vacuity of mutex: the second participant of sample_run was
    refused while the first is live, and takes over after an orderly release *)
 Definition handover_run : list action :=
   sample_run ++ [RelCall 0 1; ApiCadEff 0 ONormal; ApiCadRet 0; Exit 0; WaitDone 0;
@@ -242,14 +228,12 @@ Example cleanup_nonvacuous :
     pmap q = [] /\ papi q = AIdle /\ pfin q = true /\ stg s = [] /\ map llive (lis s) = [false; false].
 Proof. eexists. eexists. split; [vm_compute; reflexivity|]. vm_compute. auto 8. Qed.
 
-Print Assumptions step_down_bound_refuted.
-Print Assumptions step_down_bound_partial.
-Print Assumptions step_down_bound_cancel_on_exit.
 Print Assumptions step_down_bound.
-Print Assumptions mutex_refuted_delete_first.
-Print Assumptions mutex_partial.
-Print Assumptions mutex_cancel_first.
+Print Assumptions step_down_bound_refuted_no_defer.
+Print Assumptions step_down_bound_no_defer_partial.
 Print Assumptions mutex.
+Print Assumptions mutex_refuted_delete_first.
+Print Assumptions mutex_delete_first_partial.
 Print Assumptions mutex_external_delete_refuted.
 Print Assumptions release_own_only_api.
 Print Assumptions release_own_only_goroutine.
